@@ -32,7 +32,8 @@ def _match_known(known, pid, oid, case_json, detail):
         each = k.get('each_difference')
         if each:
             body = re.sub(r'^\d+ difference\(s\): ', '', detail or '')
-            segs = [x.strip() for x in body.split(' | ') if x.strip()]
+            # `split_all`: the detail joins groups with ' || ' and differences inside a group with ' | '
+            segs = [x.strip() for x in (re.split(r' \|\|? ', body) if k.get('split_all') else body.split(' | ')) if x.strip()]
             if not segs or not all(re.fullmatch(each, sg, re.S) for sg in segs):
                 continue
         return k
